@@ -68,3 +68,31 @@ Definition corr_disp (c : disp_case) : bool :=
 
 Definition holds_disp_case (c : disp_case) : bool :=
   holds_disp (dc_plugin c) (dc_carrier c) (dc_msg c) (dc_beh c) (dc_inv c, dc_reply c).
+
+(* ====================================================================== *)
+(* C16                                                                     *)
+(* ====================================================================== *)
+
+(* a sequence of operations on one stub and what was observed after each (the sequence of
+   observations ends with the first operation that did not return) *)
+Record life_case := { lc_ops : list op; lc_obs : list obs }.
+
+Definition oclass_eqb (a b : oclass) : bool :=
+  match a, b with
+  | KOk, KOk | KErr, KErr | KReturned, KReturned | KBlocked, KBlocked => true
+  | _, _ => false
+  end.
+
+Definition obs_eqb (a b : obs) : bool :=
+  oclass_eqb (o_class a) (o_class b) && opt_eqb Bool.eqb (o_started a) (o_started b) &&
+  Nat.eqb (o_closes a) (o_closes b) && Nat.eqb (o_waiting a) (o_waiting b).
+
+(* the observation is one of those the life-cycle LTS predicts under the given switches *)
+Definition predicted (sw : switches) (c : life_case) : bool :=
+  existsb (list_eqb obs_eqb (lc_obs c)) (run_ops sw init (lc_ops c)).
+
+(* the model of the CURRENT code *)
+Definition corr_life (c : life_case) : bool := predicted faithful c.
+(* the behaviour the property demands (the LTS with the three defects off; Properties/C16.v
+   proves that this LTS has the properties the text states) *)
+Definition holds_life (c : life_case) : bool := predicted fixed c.
